@@ -282,9 +282,10 @@ const (
 	aSetDelete
 	aSetPatch
 	aDeletePatch
+	aSetDeletePatch
 )
 
-var assignNames = [...]string{"none", "delete", "set", "patch", "set+delete", "set+patch", "delete+patch"}
+var assignNames = [...]string{"none", "delete", "set", "patch", "set+delete", "set+patch", "delete+patch", "set+delete+patch"}
 
 type fieldInfo struct {
 	f        corpus.Field
@@ -382,9 +383,9 @@ func genPatch(s *corpus.Schema, td *corpus.TypeDef, g *model.Gen, rng *rand.Rand
 		}
 		fpath := path + "/" + fi.f.Name
 		*desc = append(*desc, fpath+"="+assignNames[a])
-		touchesSet := a == aSet || a == aSetDelete || a == aSetPatch
-		touchesDel := a == aDelete || a == aSetDelete || a == aDeletePatch
-		touchesPatch := a == aPatch || a == aSetPatch || a == aDeletePatch
+		touchesSet := a == aSet || a == aSetDelete || a == aSetPatch || a == aSetDeletePatch
+		touchesDel := a == aDelete || a == aSetDelete || a == aDeletePatch || a == aSetDeletePatch
+		touchesPatch := a == aPatch || a == aSetPatch || a == aDeletePatch || a == aSetDeletePatch
 		if touchesPatch && !fi.isRecord {
 			touchesPatch = false
 			if a == aPatch {
@@ -450,7 +451,7 @@ func partialUpdates(run *ev.Run, set *bridge.Set, td *corpus.TypeDef, rng *rand.
 	g := model.NewGen(s, rng)
 	g.Hostile = 0.1
 	g.MaxDepth = 3
-	choices := []assign{aNone, aDelete, aSet, aPatch, aSetDelete, aSetPatch, aDeletePatch}
+	choices := []assign{aNone, aDelete, aSet, aPatch, aSetDelete, aSetPatch, aDeletePatch, aSetDeletePatch}
 	type plan struct {
 		top     []assign // assignment of the top-level fields
 		spec    []string // exclusion paths ("/a/b" form without leading slash in NewPathSpec)
@@ -477,7 +478,7 @@ func partialUpdates(run *ev.Run, set *bridge.Set, td *corpus.TypeDef, rng *rand.
 		var a []assign
 		for range fis {
 			if rng.Intn(10) == 0 {
-				a = append(a, choices[4+rng.Intn(3)]) // a conflicting combination
+				a = append(a, choices[4+rng.Intn(4)]) // a conflicting combination (two or all three operations)
 			} else {
 				a = append(a, choices[rng.Intn(4)])
 			}
